@@ -5,6 +5,11 @@ from __future__ import annotations
 import json
 
 
+ALL_FEATURES = ["group_relevant", "group_appearance", "repeat_count", "repeat_relevant", "choice_extra", "choice_media", "parameters", "translations", "question_media",
+                "constraint_msg", "guidance", "dyn_default", "trigger", "or_other", "instance_attr", "settings", "entity", "external_instance", "audit", "table_list",
+                "last_saved", "namespaces"]
+
+
 def build(feats):
     F = set(feats)
     q = [
@@ -63,6 +68,9 @@ def build(feats):
         by["q1"]["bind::foo"] = "bar"
     if "settings" in F:
         settings.update({"form_title": "A Title", "form_id": "fid", "version": "7", "style": "pages", "submission_url": "http://s/u", "instance_name": "concat('i', ${q1})"})
+    if "namespaces" in F:
+        settings.update({"namespaces": 'ex="http://example.com/ex" ex2="http://example.com/ex2"', "attribute::ex:marker": "m1"})
+        by["q2"]["bind::ex2:flag"] = "f2"
     if "entity" in F:
         extra.append({"name": "entities", "header": ["dataset", "label"], "rows": [["people", "${q1}"]]})
         by["q1"]["save_to"] = "pname"
